@@ -8,6 +8,9 @@ import Spine.DiscoveryThm
     the member with the two guards that restore the invariant. -/
 namespace Spine.Disc
 
+/-- entry and feature literals for the witnesses (the only place to touch when `EI` / `F` gain fields) -/
+def mkEI (addr : List Nat) (typ : Nat) (chg : Chg) : EI := { addr := addr, typ := typ, chg := chg }
+
 /-- the source-feature lookup of a node-management datagram succeeds: `DeviceRemote.FeatureByAddress([0], 0)` -/
 def nmPresent (t : Tree) : Bool :=
   match findE t [0] with
@@ -16,8 +19,10 @@ def nmPresent (t : Tree) : Bool :=
 
 /-! ### what a message that does not name an address leaves alone (code as written) -/
 
-theorem find_map_other (t : Tree) (a b : List Nat) (fs : List F) (h : b ≠ a) :
-    findE (t.map fun e => if e.addr = b then { e with feats := fs } else e) a = findE t a := by
+/-- refreshing the entities with address `b` (by any function that keeps the address) does not touch the lookup of
+    another address -/
+theorem find_map_other (t : Tree) (a b : List Nat) (g : E → E) (hg : ∀ e, (g e).addr = e.addr) (h : b ≠ a) :
+    findE (t.map fun e => if e.addr = b then g e else e) a = findE t a := by
   unfold findE
   induction t with
   | nil => rfl
@@ -25,8 +30,8 @@ theorem find_map_other (t : Tree) (a b : List Nat) (fs : List F) (h : b ≠ a) :
     simp only [List.map_cons, List.find?_cons]
     by_cases hb : e.addr = b
     · have hne : ¬ e.addr = a := fun h' => h (hb ▸ h')
-      simp only [hb, if_true]
-      simp only [h, decide_false]
+      have hne' : ¬ (g e).addr = a := by rw [hg]; exact hne
+      simp only [hb, if_true, hne', h, decide_false]
       exact ih
     · simp only [hb, if_false]
       by_cases ha : e.addr = a
@@ -63,7 +68,8 @@ theorem addOne_other (m : Msg) (acc : Tree × List Evt) (ei : EI) (a : List Nat)
   obtain ⟨t, evs⟩ := acc
   simp only [addOne]
   split
-  · exact find_map_other t a ei.addr _ h
+  · refine find_map_other t a ei.addr _ ?_ h
+    intro _; rfl
   · exact find_append_other t a _ h
 
 /-- one iteration of the removal loop touches only the entity it is about -/
@@ -95,24 +101,26 @@ theorem remAll_other (m : Msg) (t : Tree) (a : List Nat) (h : ∀ ei ∈ m.ents,
   exact foldl_keeps (fun acc : Tree × List Evt => findE acc.1 a = findE t a) remOne m.ents (t, [])
     (fun b x hx hb => by rw [remOne_other b x a (h x hx)]; exact hb) rfl
 
-/-- the per-entry step of the notification handler as written: the whole message is added or removed -/
-def stepWritten (m : Msg) (acc : Tree × List Evt) (ei : EI) : Tree × List Evt :=
+/-- the per-entry step of the notification handler as written: the whole message is added or removed
+    (the C06 check names the same function `Disc.stepWritten` inside `notifyPartial`; `notifyPartial_tree` below
+    holds by `rfl` for either formulation) -/
+def stepWhole (m : Msg) (acc : Tree × List Evt) (ei : EI) : Tree × List Evt :=
   match ei.chg with
   | .added => ((addAll m acc.1).1, acc.2 ++ (addAll m acc.1).2)
   | .removed => ((remAll m acc.1).1, acc.2 ++ (remAll m acc.1).2)
   | .none => acc
 
-theorem stepWritten_other (m : Msg) (acc : Tree × List Evt) (ei : EI) (a : List Nat)
-    (h : ∀ ei ∈ m.ents, ei.addr ≠ a) : findE (stepWritten m acc ei).1 a = findE acc.1 a := by
-  unfold stepWritten
+theorem stepWhole_other (m : Msg) (acc : Tree × List Evt) (ei : EI) (a : List Nat)
+    (h : ∀ ei ∈ m.ents, ei.addr ≠ a) : findE (stepWhole m acc ei).1 a = findE acc.1 a := by
+  unfold stepWhole
   cases ei.chg with
   | added => exact addAll_other m acc.1 a h
   | removed => exact remAll_other m acc.1 a h
   | none => rfl
 
-/-- the tree after `notifyPartial` is a fold of `stepWritten` over a prefix of the entries -/
+/-- the tree after `notifyPartial` is a fold of `stepWhole` over a prefix of the entries -/
 theorem notifyPartial_tree (m : Msg) (t : Tree) :
-    ∃ l : List EI, (∀ ei ∈ l, ei ∈ m.ents) ∧ (notifyPartial m t).1 = (l.foldl (stepWritten m) (t, [])).1 := by
+    ∃ l : List EI, (∀ ei ∈ l, ei ∈ m.ents) ∧ (notifyPartial m t).1 = (l.foldl (stepWhole m) (t, [])).1 := by
   unfold notifyPartial
   split
   · exact ⟨[], by simp, rfl⟩
@@ -125,8 +133,8 @@ theorem notifyPartial_other (m : Msg) (t : Tree) (a : List Nat) (h : ∀ ei ∈ 
     findE (notifyPartial m t).1 a = findE t a := by
   obtain ⟨l, hl, heq⟩ := notifyPartial_tree m t
   rw [heq]
-  exact foldl_keeps (fun acc : Tree × List Evt => findE acc.1 a = findE t a) (stepWritten m) l (t, [])
-    (fun b x _ hb => by rw [stepWritten_other m b x a h]; exact hb) rfl
+  exact foldl_keeps (fun acc : Tree × List Evt => findE acc.1 a = findE t a) (stepWhole m) l (t, [])
+    (fun b x _ hb => by rw [stepWhole_other m b x a h]; exact hb) rfl
 
 /-- … and so does a reply -/
 theorem reply_other (m : Msg) (t : Tree) (a : List Nat) (h : ∀ ei ∈ m.ents, ei.addr ≠ a) :
@@ -191,8 +199,8 @@ def replyKeep (m : Msg) (t : Tree) : Tree × List Evt := m.ents.foldl (addOneKee
 theorem nmPresent_of_find (t t' : Tree) (h : findE t' [0] = findE t [0]) : nmPresent t' = nmPresent t := by
   unfold nmPresent; rw [h]
 
-theorem find_map_self (t : Tree) (a : List Nat) (fs : List F) (e : E) (h : findE t a = some e) :
-    findE (t.map fun e => if e.addr = a then { e with feats := fs } else e) a = some { e with feats := fs } := by
+theorem find_map_self (t : Tree) (a : List Nat) (g : E → E) (hg : ∀ e, (g e).addr = e.addr) (e : E)
+    (h : findE t a = some e) : findE (t.map fun e => if e.addr = a then g e else e) a = some (g e) := by
   unfold findE at *
   induction t with
   | nil => simp at h
@@ -202,7 +210,8 @@ theorem find_map_self (t : Tree) (a : List Nat) (fs : List F) (e : E) (h : findE
         simp only [List.find?_cons, hx, decide_true] at h
         exact Option.some.inj h
       subst hxe
-      simp [hx]
+      have : (g x).addr = a := by rw [hg]; exact hx
+      simp [hx, this]
     · simp only [List.find?_cons, hx, decide_false] at h
       simp only [List.map_cons, List.find?_cons, hx, if_false, decide_false]
       exact ih h
@@ -226,10 +235,18 @@ theorem addOneKeep_nm (m : Msg) (acc : Tree × List Evt) (ei : EI) (h : nmPresen
         apply Classical.byContradiction
         intro hn
         exact hg ⟨ha, by simp [he], hn⟩
-      simp only [addOne, ha, he]
+      -- after the refresh the lookup yields an entity whose features are the announced ones
+      have hnew : ∃ e', findE (addOne m (t, evs) ei).1 [0] = some e' ∧
+          e'.feats = m.feats.filter (·.ent = ei.addr) := by
+        simp only [addOne, ha, he]
+        refine ⟨_, find_map_self t [0] _ ?_ e he, ?_⟩
+        · intro _; rfl
+        · rfl
+      obtain ⟨e', he', hf'⟩ := hnew
       unfold nmPresent
-      rw [find_map_self t [0] _ e he]
-      rw [ha] at hfs
+      rw [he']
+      show e'.feats.any (fun x => decide (x.id = 0)) = true
+      rw [hf']
       exact hfs
     · rw [nmPresent_of_find _ _ (addOne_other m acc ei [0] ha)]
       exact h
